@@ -36,6 +36,7 @@ var registry = map[string]runner{
 	"C16/random":       w02.Random,
 	"C16/semantic":     w02.Semantic,
 	"C14/enum":         w14.Enum,
+	"C14/literal":      w14.Literal,
 	"C15/pairs":        w15.Pairs,
 	"C15/literals":     w15.Literals,
 	"C15/random":       w15.Random,
